@@ -325,7 +325,8 @@ def REGISTER(reg):
         note, tech, "DESIGN 6/C11", level="model_checking", engine="crash")
     reg("C12", "Flush and Close make prior writes durable", run_crash,
         "NoSync / WAL-disabled histories: after Flush (and after Close with the WAL) returns, every crash clone must contain everything "
-        "committed before; before that, any prefix.", note, tech, "DESIGN 6/C12", level="model_checking", engine="crash")
+        "committed before, plus any subset of what was committed since (C12 promises no prefix: that is C11); includes steps where a flush "
+        "races an ingest (two jobs creating and syncing objects; ObjSync.tla is the protocol model).", note, tech, "DESIGN 6/C12, 0.3a", level="model_checking", engine="crash")
     reg("C13", "OnlyReadGuaranteedDurable reads are consistent and crash-proof", run_crash,
         "After every call an OnlyReadGuaranteedDurable iterator is fully read and crash clones are taken at that moment: TLC requires the read to "
         "equal a prefix state n and every clone to recover a prefix m >= n.", note, tech, "DESIGN 6/C13", level="model_checking", engine="crash")
